@@ -590,4 +590,34 @@ theorem msTap_script_accepts : accepts env3t (encode ke3t .tap msTap) [sig3 0, [
   exact interp_accept_imp_script_accepts_partial (ctx := .tap) ⟨rfl, rfl⟩ env3t_agree msTap msTap_wf
     ⟨⟨.B, .any, false, false⟩, ⟨.none, true, true⟩⟩ (by decide) rfl _ cs (by decide) h
 
+/-! ### key admission at the boundary (segwit v0: compressed keys only) -/
+
+/-- a key `from_txdata` admits as the witness-program key of p2wpkh / sh-wpkh is 33 bytes long -/
+theorem pkFromSlice_segwit_compressed (kp : Bytes → Bool) (b : Bytes)
+    (h : Interp.pkFromSlice kp true b = .ok ()) : kp b = true ∧ b.length = 33 := by
+  unfold Interp.pkFromSlice at h
+  by_cases hk : kp b = true
+  · by_cases hl : b.length = 33
+    · exact ⟨hk, hl⟩
+    · simp [hk, hl] at h
+  · simp [hk] at h
+
+/-- in p2pkh (no compressedness required) exactly the parseable keys are admitted -/
+theorem pkFromSlice_legacy (kp : Bytes → Bool) (b : Bytes) :
+    Interp.pkFromSlice kp false b = .ok () ↔ kp b = true := by
+  unfold Interp.pkFromSlice
+  by_cases hk : kp b = true <;> simp [hk]
+
+/-- a witness script the interpreter admits pushes 33-byte keys only -/
+theorem segwitScriptAdmits_keys (ke : KeyEnv) (ms : Ms) (h : Interp.segwitScriptAdmits ke ms = true)
+    (k : Key) (hk : k ∈ Interp.msKeys ms) : (ke.ser k).length = 33 := by
+  unfold Interp.segwitScriptAdmits at h
+  rw [List.all_eq_true] at h
+  simpa using h k hk
+
+/-- non-vacuity / the refused shape: `<65-byte key> CHECKSIG` is not admitted, `<33-byte key> CHECKSIG` is -/
+example : Interp.segwitScriptAdmits { ke3 with ser := fun k => List.replicate (if k = 0 then 65 else 33) 4 } (.check (.pkK 0)) = false
+    ∧ Interp.segwitScriptAdmits { ke3 with ser := fun k => List.replicate (if k = 0 then 65 else 33) 4 } (.check (.pkK 1)) = true := by
+  constructor <;> rfl
+
 end MsVerif.C13
